@@ -117,11 +117,13 @@ Definition ref_handshake (r : rstate) (now : Z) (tag addr : str) (cmd : option s
   | _ :: _, Some cm =>
       match ref_lookup r now (tag, addr, cm) with
       | Some x =>
-          match on_resume p (e_id (fst x)) with
-          | RBroken | RSidNotFound => ref_drop r (e_id (fst x))
-          | ROtherCode => r
-          | RAuthorized | RNoCode => ref_renew r now x
-          end
+          if has_usable_key (fst x) then
+            match on_resume p (e_id (fst x)) with
+            | RBroken | RSidNotFound => ref_drop r (e_id (fst x))
+            | ROtherCode => r
+            | RAuthorized | RNoCode => ref_renew r now x
+            end
+          else ref_full r now tag addr p    (* a session without a usable key is never ridden *)
       | None => ref_full r now tag addr p
       end
   | _, _ => ref_full r now tag addr p
